@@ -331,6 +331,14 @@ Additions for the parameter dicts of the posterior samples (core.Theta, models/s
                       PyRt.res_fold_brk like a `break`, and after the loop `match ret with Some v => return v | None => <rest> end`,
                       where `return v` is the enclosing loop's own return when the loops are nested.  Combine with cfg["tail_dup"]
                       for an `if` that may, but need not, return.  Without the key a return inside a loop is refused as before.
+Additions for data.py Screen.single_treatment_effects / scoring/size.py SizeScorer.score (C14 / C06 leftovers):
+  cfg["except_tags"]  {exception class name: tag (a Gallina term of type Z, e.g. a parameter)}: a FINAL statement
+                          try: B   except E: H      (one handler naming one declared class; no `as`, else, finally)
+                      where B and H both always end in a return / raise and B assigns no variable, is PyRt.res_catch tag B H: an
+                      exception of B that carries E's tag is replaced by H's outcome, any other passes.  The configuration TRUSTS
+                      that the primitives of B use exactly this tag for exactly the exceptions of class E.  Default monad only.
+  {k: v for a, b in d.items()}   d a bound variable of type `dict T`, no condition: the left fold of dict_set over d's entries
+                      in insertion order, a : Z, b : T in scope for k and v (neither may raise)
 """
 import ast
 
@@ -625,6 +633,8 @@ class Tr:
             return self.dataclass_dict(e, env, hoist)
         if isinstance(e, ast.DictComp):
             # {k(x): v(x) for x in L}  ->  fold_left (fun d x => dict_set d k v) L []; neither k nor v may raise
+            if len(e.generators) == 1 and self.items_comp(e.generators[0], env) is not None:
+                return self.dictcomp_over_items(e, env, hoist)
             if len(e.generators) != 1 or e.generators[0].is_async or e.generators[0].ifs \
                     or not isinstance(e.generators[0].target, ast.Name):
                 raise Unsupported("dict comprehension other than {k(x): v(x) for x in L}: " + ast.unparse(e))
@@ -825,6 +835,34 @@ class Tr:
         for _ in range(n - 1 - max(i, 1)):
             t = "(fst %s)" % t
         return "(fst %s)" % t if i == 0 else "(snd %s)" % t
+
+    def items_comp(self, g, env):
+        """(d, k, v) when the generator is `for k, v in d.items()` with d a bound variable of type `dict T`, without a condition"""
+        it = g.iter
+        if g.is_async or g.ifs or not (isinstance(g.target, ast.Tuple) and len(g.target.elts) == 2
+                                       and all(isinstance(x, ast.Name) for x in g.target.elts)):
+            return None
+        if not (isinstance(it, ast.Call) and isinstance(it.func, ast.Attribute) and it.func.attr == "items" and not it.args
+                and not it.keywords and isinstance(it.func.value, ast.Name) and env.get(it.func.value.id, ("unit",))[0] == "dictof"):
+            return None
+        return it.func.value.id, g.target.elts[0].id, g.target.elts[1].id
+
+    def dictcomp_over_items(self, e, env, hoist):
+        """{k(a, b): v(a, b) for a, b in d.items()} with d : dict T: the left fold of dict_set over d's entries in insertion order
+        (neither key nor value may raise)"""
+        d, a, b = self.items_comp(e.generators[0], env)
+        if a == b:
+            raise Unsupported("dict comprehension binding one name twice: " + ast.unparse(e))
+        env2 = dict(env)
+        env2[a], env2[b] = ("Z",), env[d][1]
+        inner = []
+        kk, kt = self.expr(e.key, env2, inner)
+        kk = self.need(kk, kt, ("Z",), inner)
+        vv, vt = self.expr(e.value, env2, inner)
+        if inner:
+            raise Unsupported("dict comprehension key / value that may raise: " + ast.unparse(e))
+        acc = self.new("d")
+        return "(fold_left (fun %s '(%s, %s) => dict_set %s %s %s) %s [])" % (acc, a, b, acc, kk, vv, d), ("dictof", vt)
 
     def tuple_comp_target(self, t):
         return isinstance(t, ast.Tuple) and len(t.elts) >= 2 and all(isinstance(x, ast.Name) for x in t.elts)
@@ -1175,7 +1213,7 @@ class Tr:
                 for c in st.cases:
                     for n in self.assigned(c.body):
                         add(n)
-            elif isinstance(st, ast.Try) and self.try_prims:
+            elif isinstance(st, ast.Try) and (self.try_prims or self.cfg.get("except_tags") is not None):
                 for n in self.assigned(st.body) + [x for h in st.handlers for x in self.assigned(h.body)]:
                     add(n)
             else:
@@ -1589,6 +1627,8 @@ class Tr:
             return self.block([self.match_to_if(st)] + rest, env, k, ind)
         if isinstance(st, ast.Try) and self.try_prims:
             return self.try_stmt(st, rest, env, k, ind)
+        if isinstance(st, ast.Try) and self.cfg.get("except_tags") is not None:
+            return self.try_catch(st, rest, env, k, ind)
         if isinstance(st, ast.With):
             x, ctx = self.with_item(st)
             if self.has_jump(st.body, (ast.Continue,) if self.cfg.get("with_return") else (ast.Continue, ast.Return)):
@@ -1675,6 +1715,32 @@ class Tr:
                     ind, self.M["bind"], ans, tmpl.format(**args), ind, ans, ind, okpat.format(x=val), t_ok, ind, t_ex, ind)
                 return self.bind_hoist(hoist, txt, ind)
         raise Unsupported("try body whose first statement is not a declared primitive: " + ast.unparse(first)[:80])
+
+    def try_catch(self, st, rest, env, k, ind):
+        """cfg["except_tags"] = {exception class name: tag (a Gallina term of type Z)}:
+               try: B   except E: H        (one handler naming a declared class, no `as`, no else / finally)
+        where B and H both always return (or raise), B assigns no variable and no statement follows: PyRt.res_catch tag B H"""
+        if st.orelse or st.finalbody or len(st.handlers) != 1 or rest or self.M["type"] != "result":
+            raise Unsupported("try statement other than a final try / one except: " + ast.unparse(st)[:60])
+        h = st.handlers[0]
+        tags = self.cfg["except_tags"]
+        if h.name is not None or not isinstance(h.type, ast.Name) or h.type.id[:-len(SUFFIX)] not in tags:
+            raise Unsupported("except clause that does not name one declared exception class: " + ast.unparse(st)[:60])
+        if not (self.returns_always(st.body) and self.returns_always(h.body)) or self.assigned(st.body) \
+                or self.has_jump(st.body + h.body, (ast.Continue, ast.Break)):
+            raise Unsupported("try / except whose parts do not both end in a return, or whose body assigns a variable")
+        tb = self.block(list(st.body), env, k, ind + "    ")
+        th = self.block(list(h.body), env, k, ind + "    ")
+        return "%sres_catch (%s) (\n%s%s  ) (\n%s%s  )\n" % (ind, tags[h.type.id[:-len(SUFFIX)]], tb, ind, th, ind)
+
+    def returns_always(self, stmts):
+        """every path through [stmts] ends in a return or a raise"""
+        for s_ in stmts:
+            if isinstance(s_, (ast.Return, ast.Raise)):
+                return True
+            if isinstance(s_, ast.If) and s_.orelse and self.returns_always(s_.body) and self.returns_always(s_.orelse):
+                return True
+        return False
 
     # ---- with blocks (cfg["contexts"]) and statement-run primitives (cfg["stmt_prims"])
     def with_item(self, st):
